@@ -28,7 +28,7 @@ ASSUMPTIONS = [
 SHARD_TIMEOUT = {"quick": 600, "thorough": 3000}
 
 KINDS = ["conn-close", "http10", "http10-te", "refused-400", "refused-431", "short", "short0", "nocl", "raise0", "raise1", "send-fault",
-         "recv-fault", "continue-send-fault", "refused-400-head", "raise0-head", "te-plus-empty-cl"]
+         "recv-fault", "continue-send-fault", "refused-400-head", "raise0-head", "te-plus-empty-cl", "refused-proxy-400"]
 FOLLOW = ["one", "two", "partial", "garbage"]
 ARRIVAL = ["same", "next", "after-response", "delay", "during-execution"]
 
@@ -66,14 +66,20 @@ def build(kind, follow, arrival, lookahead, threads, poll, pre, sndbuf=4096):
         # refused, the connection ends after this message
         M = {"raw": "POST /r?c=0&i=%d&n=600&k=cl&w=0 HTTP/1.1\r\nHost: h\r\nTransfer-Encoding: chunked\r\nContent-Length:\r\n\r\n"
                     "3\r\nabc\r\n0\r\n\r\n" % m_index, "refused": True}
+    elif kind == "refused-proxy-400":
+        # refused by the proxy-headers middleware (the peer is the trusted proxy, the header is malformed)
+        adj["trusted_proxy"] = "127.0.0.1"
+        adj["trusted_proxy_headers"] = "x-forwarded-proto"
+        M = {"raw": "GET /r?c=0&i=%d&n=600&k=cl&w=0 HTTP/1.1\r\nHost: h\r\nX-Forwarded-Proto: http, https\r\n\r\n" % m_index, "refused": True}
     elif kind == "refused-431":
         adj["max_request_header_size"] = 200
         M = {"raw": "GET /big HTTP/1.1\r\nHost: h\r\nX-Pad: " + "p" * 220 + "\r\n\r\n"}
     elif kind == "http10-te":
         # Transfer-Encoding on a non-1.1 request: whatever is done with the message itself, the
         # connection must be closed after it (RFC 9112 6.1), keep-alive or not
-        M = {"raw": "POST /r?c=0&i=%d&n=600&k=cl&w=0 HTTP/1.0\r\nHost: h\r\nConnection: keep-alive\r\n"
-                    "Transfer-Encoding: chunked\r\n\r\n" % m_index, "refused": True}
+        ver = (" HTTP/1.0", " HTTP/1.2", " HTTP/0.9", " HTTP/2.0", "")[(m_index + lookahead + threads + int(poll)) % 5]
+        M = {"raw": "POST /r?c=0&i=%d&n=600&k=cl&w=0%s\r\nHost: h\r\nConnection: keep-alive\r\n"
+                    "Transfer-Encoding: chunked\r\n\r\n" % (m_index, ver), "refused": True}
     elif kind in ("short", "short0", "nocl", "raise0", "raise1"):
         M = {"n": 600, "k": kind, "w": 100}
     elif kind == "send-fault":
@@ -162,8 +168,10 @@ def gen_scenario(rng):
     scn = build(kind, follow, arrival, lookahead, rng.choice([1, 1, 2]), rng.random() < 0.4, pre,
                 sndbuf=rng.choice([512, 4096]))
     if kind == "send-fault":
-        # place the fault on a later send as well
-        scn["faults"] = {"0:send:%d" % rng.randrange(1 + len(pre), 5 + len(pre)): rng.choice([errno.ETIMEDOUT, errno.EINVAL, errno.ENOBUFS])}
+        # place the fault on a later send as well; half of the time the peer is gone for good (every
+        # later send fails too)
+        e = rng.choice([errno.ETIMEDOUT, errno.EINVAL, errno.ENOBUFS])
+        scn["faults"] = {"0:send:%d" % rng.randrange(1 + len(pre), 5 + len(pre)): e if rng.random() < 0.5 else "DEAD:%d" % errno.ETIMEDOUT}
     if rng.random() < 0.2:
         scn["adj"]["log_socket_errors"] = False
     scn["follow"] = follow
@@ -178,6 +186,12 @@ def directed():
             s = build(kind, "two", "next", la, 1, False, [{"n": 50, "k": "cl"}], sndbuf=512)
             s["follow"], s["arrival"] = "two", "next"
             out.append(s)
+    # the peer of a worker-side flush is gone for good (every later send fails as well)
+    for la in (0, 2):
+        s = build("send-fault", "two", "next", la, 1, False, [{"n": 50, "k": "cl"}], sndbuf=512)
+        s["faults"] = {k: "DEAD:%d" % errno.ETIMEDOUT for k in s["faults"]}
+        s["follow"], s["arrival"] = "two", "next"
+        out.append(s)
     for kind in ("conn-close", "short", "raise0", "http10"):
         for la in (1, 2):
             s = build(kind, "two", "during-execution", la, 1, la == 2, [], sndbuf=4096)
@@ -203,7 +217,7 @@ def plan(tier, seed):
         specs.append({"mode": "random", "seed": seed * 1021 + i, "n": per})
     ds = directed()
     if tier == "quick":
-        ds = [ds[0], ds[1], ds[3], ds[5], ds[9], ds[11], ds[13], ds[15], ds[17], ds[18], ds[19], ds[20], ds[23]]
+        ds = [ds[0], ds[1], ds[3], ds[5], ds[9], ds[11], ds[13], ds[15], ds[17], ds[18], ds[19], ds[20], ds[21], ds[22], ds[25]]
     parts = 4
     for scn in ds:
         for p in range(parts):
@@ -314,7 +328,11 @@ def judge(scn, o):
         # will_close is set, which a schedule can delay well beyond the failing call
         fstep = getattr(w, "c11_decision", {}).get(cid)
         if fstep is None:
-            return out
+            if not any(isinstance(v, str) and v.startswith("DEAD:") for v in (scn.get("faults") or {}).values()):
+                return out
+            # the peer is gone for good (every send fails) and the server never gave the connection
+            # up: whatever of it starts after the first failure is late
+            fstep = w.fault_step
         starts = sorted(getattr(w, "c11_service_starts", {}).get(cid, []))
         late = []
         for step, i in entered:
